@@ -285,8 +285,11 @@ example : srcCharsOk Pepper.C06.dupSrc = true ∧ charsOk "d-" = true := by deci
 /-- the two-gate system of C02 satisfies the tree predicate -/
 example : Pepper.C02.exTree.map (instEmitOk Generated.nupackTable) = some true := by decide +kernel
 
-/-- `[no-opt]` is not in the reader's parameter alphabet `[\w.]`: a syntax error -/
-example : parsePil Generated.nupackTable "structure [no-opt] S = s : ...\n" = .error .structSyntax := by decide +kernel
+/-- the reader's parameter alphabet is `[\w.+-]` since repair F18 (a bound printed by `%g` with an exponent, `[1e+06nt]`, is
+    readable; so is `[no-opt]`); other characters are still a syntax error -/
+example : (parsePil Generated.nupackTable "structure [1e+06nt] S = s : ...\n").toOption.isSome = true ∧
+    (parsePil Generated.nupackTable "structure [no-opt] S = s : ...\n").toOption.isSome = true ∧
+    parsePil Generated.nupackTable "structure [1,5nt] S = s : ...\n" = .error .structSyntax := by decide +kernel
 
 /-- a comment on an UNTERMINATED last line is not removed (`re.sub(r"#.*\n", …)`): the same line is accepted with a
     final newline and rejected without -/
